@@ -344,6 +344,19 @@ def constructVMat (o : Obj) : Except Err Obj := do
   optArrs o taxaMeta .int 1 none
   pure o
 
+/-- Dense{Three,Four}WayDHAdditiveGeneticVarianceMatrix(mat (n,…,n,t) with `k` taxa axes, taxa,
+    taxa_grp, trait): the `mat` setter checks `ndim = k + 1`, the label setters the length along axis 0
+    (taxa) and along the last axis (traits) -/
+def constructVMatK (k : Nat) (o : Obj) : Except Err Obj := do
+  let mat ← needArr o "mat" .any (some (k + 1))
+  let n := mat.shape.getD 0 0
+  let t := mat.shape.getD k 0
+  optArr o "taxa" .obj 1 (some n)
+  optArr o "taxa_grp" .int 1 (some n)
+  optArr o "trait" .obj 1 (some t)
+  optArrs o taxaMeta .int 1 none
+  pure o
+
 def emptyRows (t : Nat) : DS := ⟨.f64, [0, t], [], [], []⟩
 
 /-- the `u_misc`/`u_a`/`u_d` setters: `None` ⇒ `numpy.empty((0,t))` -/
@@ -437,6 +450,8 @@ def bvmatSchema : Schema :=
 def cmatSchema : Schema := ⟨"cmat", [fReq "mat"] ++ taxaFields ++ taxaMetaFields, constructCMat⟩
 def vmatSchema : Schema :=
   ⟨"vmat", [fReq "mat"] ++ taxaFields ++ [fOpt "trait" .utf8arr] ++ taxaMetaFields, constructVMat⟩
+/-- variance matrices with `k` parental axes: same field list as the two-way class -/
+def vmatKSchema (k : Nat) : Schema := ⟨"vmat", vmatSchema.fields, constructVMatK k⟩
 def modelTailFields : List Field := [fOpt "trait" .utf8arr, fOpt "model_name" .utf8, fOpt "hyperparams" .dict]
 def algSchema : Schema := ⟨"algmod", [fReq "beta", fReq "u_misc", fReq "u_a"] ++ modelTailFields, constructALG⟩
 def adlgSchema : Schema :=
@@ -445,6 +460,10 @@ def geSchema (t : Nat) : Schema :=
   ⟨"ge", [fReq "nenv" .scalarInt, fReq "nrep" .int64, fOpt "var_env", fOpt "var_rep", fOpt "var_err"],
    constructGE t⟩
 
+/-- TruePhenotyping(gpmod): no stored parameter at all — `to_hdf5` hands an EMPTY dictionary to
+    `h5py_File_write_dict`, `from_hdf5` reads nothing and builds the protocol around the model it is given -/
+def tpSchema : Schema := ⟨"tp", [], fun o => pure o⟩
+
 def schemaOf (name : String) (ctx : Nat) : Option Schema :=
   match name with
   | "pgmat" => some pgmatSchema
@@ -452,9 +471,12 @@ def schemaOf (name : String) (ctx : Nat) : Option Schema :=
   | "bvmat" => some bvmatSchema
   | "cmat" => some cmatSchema
   | "vmat" => some vmatSchema
+  | "vmat3" => some (vmatKSchema 3)
+  | "vmat4" => some (vmatKSchema 4)
   | "algmod" => some algSchema
   | "adlgmod" => some adlgSchema
   | "ge" => some (geSchema ctx)
+  | "tp" => some tpSchema
   | _ => none
 
 /-! ### `to_hdf5` / `from_hdf5` -/
